@@ -318,6 +318,16 @@ def cases(ctx):
             # the helper program itself fails (exit 2 / exit 1): nothing may be left behind either
             out.append((name, arg, TOOL_TEXT, [False, True, False], 2))
             out.append((name, arg, TOOL_TEXT, [True, False], 1))
+    # IncludeIncludesPass: include files are looked up from the process's current directory (the check's scratch root);
+    # openable and unopenable includes in every order
+    for nm_, body in (('c11_first.h', 'int first;\n'), ('c11_local.h', 'int local;\n#define L 1\n')):
+        (Path(ctx.scratch) / nm_).write_text(body)
+    inc_texts = ["#include 'c11_first.h'\nint a;\n#include 'c11_missing.h'\n#include 'c11_local.h'\nint b;\n",
+                 "#include 'c11_missing.h'\n#include 'c11_local.h'\nint b;\n", "int a;\n#include 'c11_missing.h'\n",
+                 "#include 'c11_local.h'\n#include 'c11_first.h'\n#include <stdio.h>\n"]
+    for t in inc_texts:
+        for h in ([False] * 4, [True, False, False], [False, True, True], [True, True, True, True]):
+            out.append(('includeincludes', None, t, h))
     return out
 
 
